@@ -121,9 +121,9 @@ pub fn plan_for(prop: &str, tier: Tier, seed: u64, verif_dir: &str) -> Option<Pl
 			property: "C07".into(),
 			tier,
 			seed,
-			jobs: vec![job("lnsim", "onchain", n(1000, 12000)), job("lnsim", "forward", n(400, 3000))],
+			jobs: vec![job("lnsim", "onchain", n(1000, 12000)), job("lnsim", "forward", n(400, 3000)), job("blobsim", "sweeper", n(20000, 300000))],
 			level: "exploration".into(),
-			rule: "profiles `onchain` and `forward` (3 real nodes; channels are force-closed by either side at seeded points or by the stale-manager rule after crashes, with HTLCs pending in both directions; a channel may also be closed by a node's previous, still unrevoked commitment (archived as in C06; that node then stops and its peer must cope); every remaining channel is force-closed in the liquidation phase and the chain is mined until every monitor has drained, under a seeded plan of confirmation delays, fee-estimator moves, shallow reorganisations and monitor reloads; anchor CPFP through BumpTransaction events served by a simulated wallet, transactions relayed to the mempool in seeded order and delay). The chain model verifies every broadcast transaction with libbitcoinconsensus against its UTXO set (scripts, amounts, locktime, BIP68) and applies mempool replacement rules. Oracles: C07-1 every broadcast tx is consensus-valid, final at the height it is offered for, and creates no money; C07-4 SpendableOutputs refer to confirmed outputs with the right value, are spendable by the node's keys (sweep verified by script) and claimable balances drain to nothing; wealth oracle; LDK's debug assertions in onchaintx.rs/package.rs count as oracle failures. One evaluation = one seeded run (config, schedule and faults all drawn from the run seed; replay executes the recorded action trace). non-trivial = the run executed at least one payment/HTLC to a terminal state or fired at least one fault; distinct = distinct FNV hash of the executed (action kind, actor) sequence.".into(),
+			rule: "profiles `onchain` and `forward` (3 real nodes; channels are force-closed by either side at seeded points or by the stale-manager rule after crashes, with HTLCs pending in both directions; a channel may also be closed by a node's previous, still unrevoked commitment (archived as in C06; that node then stops and its peer must cope); every remaining channel is force-closed in the liquidation phase and the chain is mined until every monitor has drained, under a seeded plan of confirmation delays, fee-estimator moves, shallow reorganisations and monitor reloads; anchor CPFP through BumpTransaction events served by a simulated wallet, transactions relayed to the mempool in seeded order and delay). The chain model verifies every broadcast transaction with libbitcoinconsensus against its UTXO set (scripts, amounts, locktime, BIP68) and applies mempool replacement rules. Oracles: C07-1 every broadcast tx is consensus-valid, final at the height it is offered for, and creates no money; C07-4 SpendableOutputs refer to confirmed outputs with the right value, are spendable by the node's keys (sweep verified by script) and claimable balances drain to nothing; wealth oracle; LDK's debug assertions in onchaintx.rs/package.rs count as oracle failures. Job blobsim/`sweeper` covers util/sweep.rs, the component the SpendableOutputs are handed to: an OutputSweeperSync over a fault-injecting KVStoreSync, a simulated chain (reorganisations of depth 1-7), a recording broadcaster and a real KeysManager tracks 1-10 outputs under seeded Track / ConnectBlock / Reorg / FeeChange / KvFailNext / Crash / CrashAtOp (k-th store operation, surviving or not) / Regenerate actions and a fault-free settle phase; C07-S1 an output whose track call returned Ok survives every restart until its spend is buried, C07-S2 outputs leave the list only after the documented burial depth and every output's status follows the chain it was told about (pending again after a reorganisation), C07-S3 sweeps spend only tracked outputs once, are final and pay only to the change destination, C07-S4 delayed outputs are not swept early and everything is swept once faults stop. One evaluation = one seeded run (config, schedule and faults all drawn from the run seed; replay executes the recorded action trace). non-trivial = the run executed at least one payment/HTLC to a terminal state or fired at least one fault; distinct = distinct FNV hash of the executed (action kind, actor) sequence.".into(),
 			assumptions: t_assumptions.clone(),
 			probes: vec![],
 			exhaustive: false,
@@ -184,9 +184,9 @@ pub fn plan_for(prop: &str, tier: Tier, seed: u64, verif_dir: &str) -> Option<Pl
 			property: "C12".into(),
 			tier,
 			seed,
-			jobs: vec![job("lnsim", "roundtrip", n(250, 4000)), job("gossipsim", "mixed", n(15000, 200000))],
+			jobs: vec![job("lnsim", "roundtrip", n(250, 4000)), job("gossipsim", "mixed", n(15000, 200000)), job("blobsim", "scorer", n(6000, 100000)), job("blobsim", "sweeper", n(8000, 150000))],
 			level: "exploration".into(),
-			rule: "profile `roundtrip`: during a `forward`-style run (payments, crashes, async persistence, on-chain closes), at seeded points every live ChannelMonitor, every ChannelMonitorUpdate seen at the Watch tap and the ChannelManager are written and read back: C12-a monitor == read(write(monitor)) (LDK's own field-wise equality, hook H3) also after a second trip and after applying the next update to both copies, updates re-serialise identically; C12-b the reloaded manager lists the same channels and payments; C12-c the stored bytes are then read through a fault-injecting reader (truncation at every seeded offset, io::Error, bit flips): decoding must return Err or a value, never panic, and never accept a truncated monitor. Job gossipsim/`mixed` (see C17) adds the network graph: at seeded points of gossip histories (P2P, RGS snapshots, pruning) the graph is written and read back, C12-d read(write(g)) == g under NetworkGraph's own PartialEq, same public view, and the copy serialises again to the same length. One evaluation = one seeded run (config, schedule and faults all drawn from the run seed; replay executes the recorded action trace). non-trivial = the run executed at least one payment/HTLC to a terminal state or fired at least one fault; distinct = distinct FNV hash of the executed (action kind, actor) sequence.".into(),
+			rule: "profile `roundtrip`: during a `forward`-style run (payments, crashes, async persistence, on-chain closes), at seeded points every live ChannelMonitor, every ChannelMonitorUpdate seen at the Watch tap and the ChannelManager are written and read back: C12-a monitor == read(write(monitor)) (LDK's own field-wise equality, hook H3) also after a second trip and after applying the next update to both copies, updates re-serialise identically; C12-b the reloaded manager lists the same channels and payments, keeps every pending event of the original in order together with the completion action attached to it (hooks H6/H7; start-up may add events), and - for channels on which no update is unsigned or in flight - shows the same balances, limits and outbound HTLCs; C12-c the stored bytes are then read through a fault-injecting reader (truncation at every seeded offset, io::Error, bit flips): decoding must return Err or a value, never panic, and never accept a truncated monitor. Job gossipsim/`mixed` (see C17) adds the network graph: at seeded points of gossip histories (P2P, RGS snapshots, pruning) the graph is written and read back, C12-d read(write(g)) == g under NetworkGraph's own PartialEq, same public view, and the copy serialises again to the same length. Job blobsim/`scorer`: a ProbabilisticScorer (or CombinedScorer) over a seeded 8-25 node NetworkGraph receives seeded path/probe successes and failures, simulated time (seconds to 400 days, decay), graph removals/additions and external-score merges; at seeded points it is written and read back: C12-e1 read succeeds and consumes exactly the bytes, C12-e2 liquidity ranges, historical buckets, success probabilities and channel_penalty_msat (3 fee-parameter sets, 4 amounts) are bit-equal on the recently used channels in both directions, C12-e3 the copy re-encodes to the same entries, C12-e4 original and copies then receive every later action in lock-step and are compared again, C12-e5 truncated encodings are refused, bit flips never panic, an appended unknown odd TLV is skipped and an even one rejected. Job blobsim/`sweeper` (see C07): C12-f the OutputSweeper restored from the KV store after a crash equals the state at the last write that took effect; truncated stored bytes are refused. One evaluation = one seeded run (config, schedule and faults all drawn from the run seed; replay executes the recorded action trace). non-trivial = the run executed at least one payment/HTLC to a terminal state or fired at least one fault; distinct = distinct FNV hash of the executed (action kind, actor) sequence.".into(),
 			assumptions: t_assumptions.clone(),
 			probes: vec![],
 			exhaustive: false,
